@@ -1400,4 +1400,28 @@ theorem parse_dgrade_qualified (m : LMap) (rows : List Id) (L : String) (i : Id)
 
 example : matchRelative "lib@abcd12" = none ∧ rpartitionAt "lib@abcd12" = ("lib", "abcd12") := by decide +kernel
 
+/-! ### upgrading to a partial identifier is upgrading to the revision it names -/
+
+/-- the upgrade plan depends on the target string only through the revisions it resolves to -/
+theorem upgradeRevs_congr (m : LMap) (rows : List Id) (t1 t2 : String)
+    (h : parseUpgradeTarget m rows t1 = parseUpgradeTarget m rows t2) :
+    upgradeRevs m rows t1 = upgradeRevs m rows t2 := by
+  unfold upgradeRevs collectUpgrade
+  rw [h]
+
+/-- **`upgrade <unique prefix>` is `upgrade <that revision>`**: in a loaded history, for a plain identifier
+that is not a key of the map, that the relative pattern does not match, and that is a prefix of exactly one
+revision id `x` of more than three characters, the plan `upgrade` computes is the plan for `x` itself —
+in particular it is not refused (seeded change C01-m refused it when `x` carries a branch label). -/
+theorem upgrade_prefix_eq_full {h : Hist} {o : LoadOpts} {m : LMap} (hl : load h o = .ok m)
+    (hu : (h.map (·.id)).Nodup) (hd : ∀ r ∈ h, ∀ d ∈ r.down, d ∈ h.map (·.id))
+    (rows : List Id) (ident : String) (hp : Plain ident) (hk : m.lookup ident = none)
+    (x : Id) (hx : x ∈ m.ids) (hpx : Plain x) (hlen : x.length > 3) (hpre : startsWithL x ident = true)
+    (huniq : ∀ y ∈ m.ids, y.length > 3 → startsWithL y ident = true → y = x)
+    (hm1 : matchRelative ident = none) (hm2 : matchRelative x = none) :
+    upgradeRevs m rows ident = upgradeRevs m rows x := by
+  apply upgradeRevs_congr
+  unfold parseUpgradeTarget
+  simp only [hm1, hm2, prefix_unique_resolves hl hu hd ident hp hk x hx hlen hpre huniq, (full_id m x hx hpx).1]
+
 end C16
